@@ -63,8 +63,9 @@ void run_sender(PSocket *s, Conn &c, bool blocking) {
   struct AddrGuard { Conn &c; ~AddrGuard() { if (c.peer_addr) { p_socket_address_free(c.peer_addr); c.peer_addr = nullptr; } } } guard_addr{c};
   size_t pos = 0;
   std::vector<char> buf;
-  int guard = 0;
-  while (pos < c.total && !c.aborted && guard++ < 20000) {
+  // every successful send moves at least one byte; would-block rounds are bounded by the step cap of the run
+  size_t guard = 0, guard_max = 4 * c.total + 20000;
+  while (pos < c.total && !c.aborted && guard++ < guard_max) {
     size_t chunk = 1 + gen(gen(3) == 0 ? 8192 : 300);
     chunk = std::min(chunk, c.total - pos);
     char *b = (char *)malloc(chunk);                       // exact size: over-reads hit a red zone (flavour A)
@@ -94,9 +95,9 @@ void run_sender(PSocket *s, Conn &c, bool blocking) {
 }
 
 void run_receiver(PSocket *s, Conn &c, bool blocking) {
-  int guard = 0;
+  size_t guard = 0, guard_max = 4 * c.total + 40000;
   size_t quit_after = c.receiver_quits_early ? gen((uint32_t)c.total + 1) : SIZE_MAX;
-  while (guard++ < 40000) {
+  while (guard++ < guard_max) {
     if (c.received >= quit_after) { probe("data.receiver_quit_early"); break; }
     size_t blen = 1 + gen(gen(3) == 0 ? 8192 : 200);
     char *b = (char *)malloc(blen);
